@@ -959,6 +959,11 @@ dPresetMap(
     printf("** PresetMap() allocates " IFMT " reals to lusup[*]....\n", nextpos);
 #endif
 
+#ifdef SLU_MT_VERIF
+    for (j = 0; j <= n; ++j)
+	if ( j == n || map_in_sup[j] >= 0 )
+	    SLU_MT_VERIF_EVENT(18, -1, j, map_in_sup[j], Glu->dynamic_snode_bound);
+#endif
     free (marker);
     return nextpos;
 }
